@@ -6,6 +6,8 @@
 EXTENDS Metadata
 
 CONSTANTS MaxIdx, FileSize, MaxBatch, MaxReaders, MaxRF, Depth,
+          DupMode,   \* "any": a refused call may have stored any prefix of its samples before the duplicate (E1);
+                     \* "all": it stored all of them - the choice the implementation makes, used for behaviour export (E2)
           QMode      \* "all": every query is also taken as a transition; "edge": transitions only for a subset (the invariant
                      \* AnswersExactAll still evaluates every query in every reachable state)
 
@@ -60,7 +62,8 @@ NWriteBatch == \E S \in Batches : \E var \in VarsFor(Cardinality(S)) :
                  WriteBatch(Req(var, Sorted(S), 0), disk + 1)
 NWriteDup   == \E idxs \in DupSeqs : \E var \in VarsFor(Len(idxs)) \ {"dictW"} :
                  LET w == Req(var, idxs, 50) IN
-                 \E m \in 0..(DupPos(w) - 1) : WriteDup(w, {idxs[j] : j \in 1..m}, disk + 1)
+                 \E m \in (IF DupMode = "all" THEN {DupPos(w) - 1} ELSE 0..(DupPos(w) - 1)) :
+                    WriteDup(w, {idxs[j] : j \in 1..m}, disk + 1)
 NRFWrite    == rf < MaxRF /\ RFWrite(disk + 1)
 NNewReader  == /\ Cardinality(DOMAIN readers) < MaxReaders
                /\ \E kind \in (IF MaxRF > 0 THEN {"md", "rf"} ELSE {"md"}) :
